@@ -50,6 +50,10 @@ CLAIMS["C05"] = ("beaconnet", "property-based testing (rapid) of generated fault
     "and restarted nodes to contribute again. Bounded liveness only; a single budget miss is re-run and counted inconclusive.",
     "Fake-time budget g*c*p/(p-c)+4p; real-time settle heuristics only choose the interleaving.", "DESIGN.md §3 C05")
 
+CLAIMS["C10"] = ("beaconnet", "property-based testing (rapid) with scripted peer sets and injected store corruption; oracles = re-verification of the Put history, bounded convergence in fake time, model-computed expected report set, content comparison after repair",
+    "A real node syncs from generated lists of honest / failing / lying scripted peers; separately its base store is corrupted and the chain check's report is compared with a per-back-end model and the repair with the true chain.",
+    "Scripted peers speak at the SyncChain channel interface (no gRPC buffering); follow mode via the control API not covered here.", "DESIGN.md §3 C10")
+
 PENDING_REASON = "check not built yet in this session (planned, see DESIGN.md §3); not claimed until it exists and is silent on the unchanged tree"
 
 
